@@ -871,19 +871,31 @@ class View:
         return type_range(x.get('type'))
 
     # -- constant tables ---------------------------------------------------------
+    @staticmethod
+    def _const_object_type(t):
+        """the declared object itself is const-qualified (not merely what it points to): `const T x[]`, `T *const p`,
+        `void (*const tbl[2])(...)`"""
+        t = str(t or '')
+        return 'const' in t.split('*')[0] or re.search(r'\(\*\s*const\s*(\[[^\]]*\])*\)', t) is not None
+
     def _const_global(self, v):
         """initialiser of the const-qualified file-scope object the variable node v names (None: not such an object)"""
         if not (isinstance(v, dict) and v.get('k') == 'var' and v.get('vk') in ('global', 'staticlocal')) or self.prog is None:
             return None
-        if 'const' not in str(v.get('type', '')).split('*')[0]:
+        if not self._const_object_type(v.get('type', '')):
             return None
         if v.get('vk') == 'staticlocal':
             d = self.decl.get(v['name'])
-            if d is not None and d.get('static') and isinstance(d.get('init'), dict) and 'const' in str(d.get('type', '')).split('*')[0]:
+            if d is None:
+                # the inliner renames the declaration of an inlined callee's static local (`tbl@3`) but not its uses
+                cs = [x for n, x in self.decl.items() if n.split('@')[0] == v['name'] and x.get('static')]
+                if cs and all(canon_init(x.get('init')) == canon_init(cs[0].get('init')) for x in cs[1:] if isinstance(x.get('init'), dict)):
+                    d = cs[0]
+            if d is not None and d.get('static') and isinstance(d.get('init'), dict) and self._const_object_type(d.get('type', '')):
                 return d['init']
         inits = [g['init'] for g in self.prog.globals.values()
                  if isinstance(g, dict) and g.get('name') == v['name'] and isinstance(g.get('init'), dict)
-                 and 'const' in str(g.get('type', '')).split('*')[0]]
+                 and self._const_object_type(g.get('type', ''))]
         if not inits or any(canon_init(i) != canon_init(inits[0]) for i in inits[1:]):
             return None
         return inits[0]
@@ -1742,3 +1754,306 @@ def unshadow(prog):
                 rename({k: v for k, v in e.items() if isinstance(v, (dict, list))}, S)
             if blk.term and blk.term.get('cond') is not None:
                 rename(blk.term['cond'], dict(ev_in.get((b, len(blk.events)), frozenset())))
+
+
+# --------------------------------------------------------------------------
+# ownership of a block attached to a user-visible object (R-C18j)
+# --------------------------------------------------------------------------
+
+# primitives that keep the address they are given (argument position of the linked member)
+HAND_OVER = {'iv_list_add': 0, 'iv_list_add_tail': 0, 'iv_avl_tree_insert': 1}
+FREE = ('free',)
+
+
+def local_name(x):
+    x = strip(x)
+    if isinstance(x, dict) and x.get('k') == 'var' and x.get('vk') in ('local', 'param'):
+        return x['name']
+    return None
+
+
+def interior_root(x):
+    """P when x is `&P->a.b[i]` / `&(*P).a` (an address inside the block P points to), else None"""
+    x = strip(x)
+    if not isinstance(x, dict) or x.get('k') != 'addr':
+        return None
+    y = strip(x.get('e'))
+    while isinstance(y, dict):
+        k = y.get('k')
+        if k == 'member':
+            if y.get('arrow'):
+                return y['base']
+            y = strip(y['base'])
+        elif k == 'index':
+            y = strip(y['base'])
+        elif k == 'deref':
+            return y['e']
+        else:
+            return None
+    return None
+
+
+def _is_null(x):
+    x = strip(x)
+    return isinstance(x, dict) and (x.get('k') == 'null' or (x.get('k') == 'int' and x.get('v') == 0))
+
+
+def _addr_of_local_var(x):
+    x = strip(x)
+    if isinstance(x, dict) and x.get('k') == 'addr':
+        v = strip(x.get('e'))
+        return isinstance(v, dict) and v.get('k') == 'var' and v.get('vk') in ('local', 'param')
+    return False
+
+
+def field_key(V, x):
+    """identity of the object whose field the member access x reads/writes: the base pointer with single-definition locals
+    replaced by what they were assigned (`p = ip; p->buf` is `ip->buf`)"""
+    b = x.get('base')
+    r = V.resolve(b) if (V is not None and isinstance(b, dict)) else b
+    return '%s%s%s' % (canon(r) if isinstance(r, dict) else '?', '->' if x.get('arrow') else '.', x.get('field'))
+
+
+def field_keys(V, rec, fld):
+    """spellings (canonical text) of the accesses to rec.fld in the viewed function: one per object"""
+    keys = {}
+    g = V.g
+    srcs = list(g.events()) + [b.term['cond'] for b in g.blocks.values() if b.term and isinstance(b.term.get('cond'), dict)]
+    for y in srcs:
+        for x in walk(y):
+            if x.get('k') == 'member' and (x.get('record'), x.get('field')) == (rec, fld):
+                keys.setdefault(field_key(V, x), x)
+    for e in g.events():
+        if e['ev'] == 'store':
+            l = strip(deref_norm(V, e['lhs']))
+            if isinstance(l, dict) and l.get('k') == 'member' and (l.get('record'), l.get('field')) == (rec, fld):
+                keys.setdefault(field_key(V, l), l)
+    return keys
+
+
+def table_callees(V, e):
+    """names of the functions an indirect call may enter when its target is read from a const table of function pointers
+    (every entry the index may select at the call), else None"""
+    fx = e.get('fnexpr')
+    if not isinstance(fx, dict):
+        return None
+    x = strip_load(fx)
+    if isinstance(x, dict) and x.get('k') == 'deref':
+        x = x['e']
+    try:
+        vals = V.table_values(x, (e['_b'], e['_i']))
+    except AnalysisBroken:
+        return None
+    if not vals:
+        return None
+    out = []
+    for v in vals:
+        v0 = strip(v)
+        if isinstance(v0, dict) and v0.get('k') == 'addr':
+            v0 = strip(v0['e'])
+        if not (isinstance(v0, dict) and v0.get('k') == 'var' and v0.get('vk') == 'func'):
+            return None
+        out.append(v0['name'])
+    return out
+
+
+def disposes_param(prog, t, idx):
+    """every path through function t (helpers inlined) passes the block its idx-th parameter points to to free, or hands it
+    to a list / tree / other memory, or finds the pointer NULL"""
+    cache = prog.__dict__.setdefault('_h18_disposes', {})
+    k = (t.q, idx)
+    if k not in cache:
+        cache[k] = False                     # recursion: not assumed
+        if t.blocks and idx < len(t.params):
+            try:
+                g = roles.inlined(prog, t)
+                _, _, exits, n = owned_flow(view_of(prog, g), None, None, None, False, frozenset([t.params[idx]['name']]))
+                cache[k] = bool(n) and 'live' not in exits
+            except AnalysisBroken:
+                cache[k] = False
+    return cache[k]
+
+
+def owned_flow(V, rec, fld, key, born, init_aliases=frozenset()):
+    """Follows the block whose address the field `key` (an access to rec.fld) holds through the viewed function.
+
+    Abstract state: a set of configurations (aliases, st, orphans):
+      aliases  locals that hold the value the field holds now
+      st       what is known of that value: 'live' (may be a block nobody else knows), 'null', 'freed' (passed to
+               free), 'handed' (linked into a list / tree or stored into other memory: somebody else answers for it)
+      orphans  {(locals still holding it, site)}: values the field held when it was overwritten at `site` while 'live'
+    The function entry is ('live') unless `born` (the object starts its life here: the field holds nothing).
+    Returns (sites {loc: store event}, lost {loc: text}, exit states {st}, n configurations at exit)."""
+    g = V.g
+
+    def is_field(x):
+        if key is None:
+            return False
+        x = strip(x)
+        if isinstance(x, dict) and x.get('k') == 'deref':
+            x = strip(deref_norm(V, x))            # `*slot` with slot = &obj->field (an inlined out-parameter)
+        return isinstance(x, dict) and x.get('k') == 'member' and (x.get('record'), x.get('field')) == (rec, fld) and field_key(V, x) == key
+
+    def holds(x, names):
+        n = local_name(x)
+        return n is not None and n in names
+
+    def about(x, aliases):
+        """x is the tracked value itself or an address inside the block: through a local or through the field"""
+        x = strip(x)
+        if holds(x, aliases) or is_field(x):
+            return True
+        r = interior_root(x)
+        return r is not None and (holds(r, aliases) or is_field(r))
+
+    def about_names(x, names):
+        x = strip(x)
+        if holds(x, names):
+            return True
+        r = interior_root(x)
+        return r is not None and holds(r, names)
+
+    def rooted_in(lhs, aliases):
+        """the stored-to location lies inside the tracked block itself"""
+        y = strip(lhs)
+        while isinstance(y, dict):
+            k = y.get('k')
+            if k == 'member':
+                if y.get('arrow'):
+                    return holds(y['base'], aliases) or is_field(y['base'])
+                y = strip(y['base'])
+            elif k == 'index':
+                y = strip(y['base'])
+            elif k == 'deref':
+                return holds(y['e'], aliases) or is_field(y['e'])
+            else:
+                return False
+        return False
+
+    def drop_name(orph, n):
+        return frozenset((a - {n}, loc) for (a, loc) in orph)
+
+    def dispose(cfg, pred_cur, pred_names, how):
+        """the value matched by the predicates was released / handed over / found to be NULL"""
+        aliases, st, orph = cfg
+        if pred_cur(aliases) and st == 'live':
+            st = how
+        orph = frozenset((a, loc) for (a, loc) in orph if not (a and pred_names(a)))
+        return (aliases, st, orph)
+
+    def tr1(e, cfg):
+        aliases, st, orph = cfg
+        ev = e['ev']
+        if ev == 'store':
+            lhs = deref_norm(V, e['lhs'])
+            l = strip(lhs)
+            pl = plain_lhs(e['lhs'])
+            if pl is not None:
+                l = pl
+            n = local_name(l)
+            plain = e.get('op') == '=' and 'rhs' in e
+            if n is not None and strip(l).get('k') == 'var':
+                r = e['rhs'] if plain else None
+                if r is not None and (is_field(r) or holds(r, aliases - {n})):
+                    return (aliases | {n}, st, drop_name(orph, n))
+                if r is not None:
+                    hit = [(a, loc) for (a, loc) in orph if holds(r, a - {n})]
+                    if hit:
+                        orph2 = frozenset(((a | {n}) if (a, loc) in hit else (a - {n}), loc) for (a, loc) in orph)
+                        return (aliases - {n}, st, orph2)
+                return (aliases - {n}, st, drop_name(orph, n))
+            if is_field(l):
+                if plain and holds(e['rhs'], aliases):
+                    return cfg                                     # the value it already holds
+                if st == 'live':
+                    orph = orph | {(aliases, e['loc'])}
+                if plain and (_is_null(e['rhs']) or (local_name(e['rhs']) is not None and _is_null(V.resolve(e['rhs'])))):
+                    return (frozenset(), 'null', orph)              # NULL, or a local whose one definition is NULL (a setter's parameter)
+                rn = local_name(e['rhs']) if plain else None
+                if rn is not None:
+                    # a value that was detached earlier and is attached again is no orphan any more
+                    orph = frozenset((a, loc) for (a, loc) in orph if rn not in a)
+                return (frozenset([rn]) if rn else frozenset(), 'live', orph)
+            if plain and not rooted_in(l, aliases):
+                # stored into memory that outlives the locals: somebody else holds the block now
+                cfg = dispose(cfg, lambda a: about(e['rhs'], a), lambda a: about_names(e['rhs'], a) and not rooted_in(l, a), 'handed')
+            return cfg
+        if ev == 'call':
+            args = e.get('args') or []
+            c = e.get('callee')
+            if c in FREE and args:
+                return dispose(cfg, lambda a: holds(args[0], a) or is_field(args[0]), lambda a: holds(args[0], a), 'freed')
+            if c in HAND_OVER and len(args) > HAND_OVER[c]:
+                x = args[HAND_OVER[c]]
+                others = [y for i, y in enumerate(args) if i != HAND_OVER[c]]
+                if not any(_addr_of_local_var(y) for y in others):
+                    return dispose(cfg, lambda a: about(x, a), lambda a: about_names(x, a), 'handed')
+            if c is None and 'fnexpr' in e and V.prog is not None and args:
+                # a call through a const table of function pointers: the block is disposed of iff every selectable entry does so
+                hit = [i for i, a in enumerate(args) if holds(a, aliases) or is_field(a) or any(holds(a, o[0]) for o in orph)]
+                if hit:
+                    names_ = table_callees(V, e)
+                    unit = V.prog.unit_of(g)
+                    ts = [(V.prog.resolve(unit, n) if unit else None) or (V.prog.fn(n) if V.prog.has_fn(n) else None) for n in (names_ or [])]
+                    if ts and all(t is not None for t in ts):
+                        for i in hit:
+                            if all(disposes_param(V.prog, t, i) for t in ts):
+                                cfg = dispose(cfg, lambda a, i=i: holds(args[i], a) or is_field(args[i]), lambda a, i=i: holds(args[i], a), 'handed')
+        return cfg
+
+    def transfer(e, S):
+        out = frozenset(tr1(e, c) for c in S)
+        if len(out) > 400:
+            raise AnalysisBroken('ownership analysis of %s: too many configurations' % g.name)
+        return out
+
+    def edge(blk, si, S):
+        if not blk.term or len(blk.succ) != 2 or blk.term.get('cls') in ('SwitchStmt', 'MethodDispatch'):
+            return S
+        c = blk.term.get('cond')
+        if c is None:
+            return S
+        allat = _cond_atoms(c, si == 0)
+        if any(a[0] == 'const' and a[1] == 'False' for a in allat):
+            return None                                             # a condition that is a constant: this edge is never taken
+        atoms = [a for a in allat if a[0] in ('==', '!=') and a[2] == '0']
+        if not atoms:
+            return S
+        out = set()
+        for cfg in S:
+            dead = False
+            for (op, lc, rc, l, r) in atoms:
+                aliases, st, orph = cfg
+                cur = lc in aliases or (isinstance(l, dict) and (holds(l, aliases) or is_field(l)))
+                if op == '==':
+                    cfg = dispose(cfg, lambda a, cur=cur: cur,
+                                  lambda a, lc=lc, l=l: lc in a or (isinstance(l, dict) and holds(l, a)), 'null')
+                elif cur and st == 'null':
+                    dead = True                                     # a NULL pointer does not compare unequal to NULL
+            if not dead:
+                out.add(cfg)
+        return frozenset(out) if out else None
+
+    init = frozenset([(frozenset(init_aliases), 'null' if born else 'live', frozenset())])
+    instate, ev_in = forward(g, init, transfer, lambda a, b: a | b, edge=edge)
+    sites = {}
+    for b, blk in g.blocks.items():
+        for i, e in enumerate(blk.events):
+            if e['ev'] != 'store' or (b, i) not in ev_in:
+                continue
+            l = strip(deref_norm(V, e['lhs']))
+            if is_field(l):
+                same = e.get('op') == '=' and 'rhs' in e and all(holds(e['rhs'], c[0]) for c in ev_in[(b, i)]) and ev_in[(b, i)]
+                if not same:
+                    sites.setdefault(e['loc'], e)
+    lost = {}
+    ex = instate.get(g.exit) or frozenset()
+    for (aliases, st, orph) in ex:
+        for (a, loc) in orph:
+            if a:
+                lost.setdefault(loc, 'the block the field held is still referred to by %s after the store, but on some path to the return '
+                                     'it is neither released nor handed to a cache list' % '/'.join(sorted(a)))
+            else:
+                lost[loc] = 'on some path the field is overwritten while it may hold a block that was neither released nor handed to a ' \
+                            'cache list, and no local keeps the old pointer: the only reference is dropped'
+    return sites, lost, {c[1] for c in ex}, len(ex)
